@@ -290,10 +290,55 @@ static int setnum_test() {
   return 0;
 }
 
+// ---- links: consecutive One2ManyLink / Many2OneLink entries whose images are adjacent blocks of one value node: a value given to one
+// item lands on the image of that item only, and comes back from that image only (Many2ManyLink::AddEntry merges entries)
+namespace links {
+struct DummyFlatModel : mp::BasicFlatModel {
+  VarBndVec lbs_, ubs_;
+  const VarBndVec& GetVarLBs() const override { return lbs_; }
+  const VarBndVec& GetVarUBs() const override { return ubs_; }
+};
+struct NullLogger : mp::BasicLogger { bool IsOpen() const override { return false; } bool Append(const char* ) override { return true; } };
+static int run() {
+  int bad = 0;
+  const int B[][3] = {{2, 2, 0}, {1, 2, 0}, {2, 1, 0}, {1, 1, 1}, {2, 2, 2}, {3, 1, 2}, {1, 3, 0}};
+  for (auto &b : B) {
+    int nsrc = b[2] ? 3 : 2, ntgt = b[0] + b[1] + b[2];
+    for (int which = 0; which < nsrc; ++which) {
+      mp::Env env; DummyFlatModel model; NullLogger lg;
+      mp::pre::ValuePresolver vp(model, env, lg);
+      mp::pre::One2ManyLink o2m(vp);
+      auto& src = vp.GetSourceNodes().GetConValues().MakeSingleKey();
+      auto& dst = vp.GetTargetNodes().GetConValues().MakeSingleKey();
+      std::vector<mp::pre::NodeRange> ss, tt;
+      for (int k = 0; k < nsrc; ++k) ss.push_back(src.Add());
+      for (int k = 0; k < nsrc; ++k) tt.push_back(dst.Add(b[k]));
+      for (int k = 0; k < nsrc; ++k) o2m.AddEntry({ss[k], tt[k]});
+      // back: a flag on the last row of item `which` only
+      std::vector<int> rows(ntgt, 0); int off = 0; for (int k = 0; k < which; ++k) off += b[k];
+      rows[off + b[which] - 1] = 4;
+      mp::pre::ModelValuesInt mv{ {}, rows, {} };
+      std::vector<int> got = vp.PostsolveIIS(mv).GetConValues()();
+      for (int k = 0; k < nsrc; ++k) if ((int)got.size() != nsrc || got[k] != (k == which ? 4 : 0)) {
+        if (bad++ < 6) std::printf("VIOLATED: items with images of %d, %d, %d adjacent rows: a flag on a row of item %d comes back on item %d as %d\n", b[0], b[1], b[2], which, k, (int)got.size() == nsrc ? got[k] : -1); break; }
+      // forth: a flag for item `which` only
+      std::vector<int> flags(nsrc, 0); flags[which] = 1;
+      mp::pre::ModelValuesInt mv2{ {}, flags, {} };
+      std::vector<int> g2 = vp.PresolveLazyUserCutFlags(mv2).GetConValues()();
+      for (int r = 0; r < ntgt; ++r) { int want = (r >= off && r < off + b[which]) ? 1 : 0;
+        if ((int)g2.size() != ntgt || g2[r] != want) { if (bad++ < 6) std::printf("VIOLATED: items with images of %d, %d, %d adjacent rows: a flag given to item %d lands on row %d as %d\n", b[0], b[1], b[2], which, r, (int)g2.size() == ntgt ? g2[r] : -1); break; } }
+    }
+  }
+  if (!bad) std::printf("OK: values stay with the image of their own item (adjacent images)\n");
+  return bad != 0;
+}
+}  // namespace links
+
 int main(int argc, char **argv) {
   const char *w = argc > 1 ? argv[1] : "all"; int bad = 0;
   if (!strcmp(w, "all") || !strcmp(w, "setnum")) bad |= setnum_test();
   if (!strcmp(w, "all") || !strcmp(w, "graph")) bad |= graph_test();
+  if (!strcmp(w, "all") || !strcmp(w, "links")) bad |= links::run();
   if (bad) { std::printf("VIOLATED: a value transfer differs from the documented rule (see above)\n"); return 10; }
   return 0;
 }
